@@ -722,7 +722,7 @@ func c13Scenarios(tier string) []Scenario {
 func init() {
 	register(&Property{ID: "C13", Level: "model_checking",
 		Technique: "exhaustive enumeration of environment deviations (read segmentations) of the real receive loops under the controlled scheduler, differential against the unsegmented run",
-		Rule:      "server: a fixed stream of independent requests (tiny and msize-sized Twrites, reads, stats, walks; some writes parked while later bytes arrive) at msize 64/96 (thorough also 256/4096), and messages above 64 KiB at msize 70000 (thorough also 1 MiB) cut around every frame end so that the 8*msize receive buffer is exhausted and reallocated; every single split point (D=1), pairs of split points around every buffer-size multiple and the first frame boundaries (D=2), 16 fixed chunk sizes incl. 1 byte; every alignment of the frame boundaries against the receive buffer end (leading payload 0..msize-24) under bulk deliveries compared with the byte-at-a-time run; a Tversion (switching dialect and msize) followed by three attaches already in the dialect asked for, one read / every split / 8 chunk sizes against byte-at-a-time; client: a fixed reply stream to a real Clnt under every single split and chunk sizes. states = segmentations explored; each is one execution of the real code",
+		Rule:      "server: a fixed stream of independent requests (tiny and msize-sized Twrites, reads, stats, walks; some writes parked while later bytes arrive) at msize 64/96 (thorough also 256/4096), and messages above 64 KiB at msize 70000 (thorough also 1 MiB) cut around every frame end so that the 8*msize receive buffer is exhausted and reallocated; every single split point (D=1), pairs of split points around every buffer-size multiple and the first frame boundaries (D=2), 16 fixed chunk sizes incl. 1 byte; every alignment of the frame boundaries against the receive buffer end (leading payload 0..msize-24) under bulk deliveries compared with the byte-at-a-time run; a Tversion (switching dialect and msize) followed by three attaches already in the dialect asked for, one read / every split / 8 chunk sizes against byte-at-a-time; client: a fixed reply stream to a real Clnt under every single split and chunk sizes. states = segmentations explored; each is one execution of the real code ; a stream interleaved with well-formed frames that are not requests (R-messages, small and msize-sized) under every single split and chunk size",
 		Assumptions: []string{"requests in the explored stream are mutually independent (distinct tags and fids), so per-tag comparison is not perturbed by legitimate reordering", "default schedule for each segmentation (schedule exploration of the receive path belongs to C03/C09)"},
 		Scenarios:   c13Scenarios, QuickS: 100, ThoroughS: 1200})
 }
